@@ -262,6 +262,13 @@ def witnesses():
             base = {"kind": kind, "transport": transport, "auth": False, "cls": True, "nw": 2, "batch": 10}
             out.append((dict(base), [["connect", 1, "raw", 0], ["classref", 1], ["connect", 2, "raw", 0], ["classref", 2], ["connect", 3, "raw", 0], ["req", 3, S.QROOT, None, 0]]))
             out.append((dict(base), [["connect", 1, "raw", 0], ["classref", 1], ["leave", 1, "fin"], ["connect", 2, "raw", 0], ["classref", 2]]))
+    # a server with a formatting DEBUG log handler (what rpyc.lib.setup_logger installs): a failing request that carries an object of the client's
+    # by reference, from a client that then goes silent; the others must still be accepted and served
+    for kind in ("threaded", "pool"):
+        for transport in ("tcp", "unix"):
+            base = {"kind": kind, "transport": transport, "auth": False, "cls": True, "nw": 2, "batch": 10, "debuglog": True}
+            out.append((dict(base), [["connect", 1, "raw", 0], ["req", 1, S.QROOT, None, 0], ["connect", 2, "raw", 0], ["logbomb", 2], ["req", 1, S.QBUMP, [1, 0], 0],
+                                     ["connect", 3, "raw", 0], ["req", 3, S.QROOT, None, 0]]))
     # the worker thread for a new client cannot be started (thread limit reached by idle connections)
     for transport in ("tcp", "unix"):
         out.append(({"kind": "threaded", "transport": transport, "auth": False, "cls": True, "nw": 2, "batch": 10},
@@ -332,7 +339,7 @@ def nontrivial(cfg, items):
     """at least one hostile event and one well-behaved request (or call) after it"""
     hostile_at = None
     for j, it in enumerate(items):
-        if it[0] in ("send", "hostile", "kill", "stall", "emfile", "twin", "hookhold", "connect0", "nospawn", "knock", "classref") or (it[0] == "connect" and cfg["auth"] and it[3] != S.AUTH_OK):
+        if it[0] in ("send", "hostile", "kill", "stall", "emfile", "twin", "hookhold", "connect0", "nospawn", "knock", "classref", "logbomb") or (it[0] == "connect" and cfg["auth"] and it[3] != S.AUTH_OK):
             hostile_at = j if hostile_at is None else hostile_at
         elif hostile_at is not None and it[0] in ("req", "call"):
             if cfg["kind"] == "forking" or S.well_behaved(cfg, items, j):
